@@ -377,7 +377,7 @@ RE_EQS = {1: "A -> B", 2: "A + B -> C", 3: "2 A -> ", 4: " -> A + 2 B"}
 
 def reaction_history_checks(rep, tier, seed, rng):
     from strengths import UnitValue, UnitsSystem, reaction_from_dict, reaction_to_dict
-    depth = 3 if tier == "quick" else 4
+    depth = 5 if tier == "quick" else 6
     tlc.write_cfg("MC_ReactionEdit_d", open(tlc.workdir() + "/MC_ReactionEdit.cfg").read().replace("Depth = 3", "Depth = %d" % depth))
     r = tlc.run("MC_ReactionEdit", cfg="MC_ReactionEdit_d", timeout=3000, heap="8g")
     rep.add_tlc("MC_ReactionEdit (every history of %d calls on one reaction object)" % depth, r)
